@@ -277,7 +277,7 @@ def gen_case(rng: random.Random) -> dict:
       factors = [rng.randint(1, 3) for _ in range(nf)]
     c['factors'] = factors
     c['pass_length'] = rng.random() < 0.5
-    c['xs'] = rng.choice(['dict', 'array', 'none']) if kind == 'nested' else 'array'
+    c['xs'] = rng.choice(['dict', 'dict2', 'array', 'none']) if kind == 'nested' else 'array'
     c['ckpt'] = (rng.random() < 0.6) if c['mode'] != 'eager' else False
     c['base'] = rng.choice(['lax', 'py'])
     c['dim'] = rng.randint(1, 4)
@@ -453,8 +453,19 @@ def run_repeated(c, log):
 
 def _nested_body(rec: Recorder, exact: bool):
   def f(carry, x):
+    if exact and isinstance(x, dict) and 'row' in x:
+      # two scanned leaves of equal size but different per-step shapes
+      outer = x['col'] * x['row']                       # (d, 1) * (1, d) -> (d, d)
+      if rec.enabled:
+        rec.add('f', int(carry['k']))
+      new = {'k': carry['k'] + I32(1),
+             'c': I32(3) * carry['c'] + I32(1) + jnp.sum(outer, axis=0).astype(I32)
+                  + outer[:, 0] + carry['k']}
+      y = {'y': new['c'] * I32(2) + carry['k'], 'z': outer + carry['k']}
+      return new, y
     if exact:
-      xv = 0 if x is None else jax.tree_util.tree_leaves(x)[0]
+      xv = 0 if x is None else sum(jnp.sum(jnp.asarray(l, I32)) * I32(i + 1)
+                                   for i, l in enumerate(jax.tree_util.tree_leaves(x)))
       if rec.enabled:
         rec.add('f', int(carry['k']))
       new = {'k': carry['k'] + I32(1),
@@ -475,6 +486,9 @@ def run_nested(c, log):
     xs = None
   elif c['xs'] == 'array':
     xs = jnp.asarray(np.arange(L * dim).reshape(L, dim) * 7 + 1, I32)
+  elif c['xs'] == 'dict2':
+    xs = {'col': jnp.asarray((np.arange(L * dim) * 3 + 1).reshape(L, dim, 1), I32),
+          'row': jnp.asarray((np.arange(L * dim) * 7 + 2).reshape(L, 1, dim), I32)}
   else:
     xs = {'a': jnp.asarray(np.arange(L * dim).reshape(L, dim) * 5 + 2, I32),
           'b': jnp.asarray(np.arange(L) * 11 + 3, I32)}
@@ -674,6 +688,18 @@ def run_dfi(c, log, steady: bool):
       got = fn(x0)
   log.emit('dfi-out', h=kernel.tree_hash(got))
   viols = []
+  # a second, freshly constructed evaluation in the same process must give the
+  # same answer (no state may leak from one initialisation to the next)
+  fn2 = ti.digital_filter_initialization(eq, solver, filters, time_span, cutoff, dt)
+  if c['mode'] == 'jit':
+    got2 = jax.jit(fn2)(x0)
+  else:
+    with jax.disable_jit():
+      got2 = fn2(x0)
+  ok2, err2 = tree_close(got2, got, 1e-13)
+  if not ok2:
+    viols.append(_viol('K-DFI', f'second evaluation of DFI with the same parameters '
+                       f'differs from the first (rel err {err2:.2e})', case=c))
   if steady:
     ok, err = tree_close(got, x0, 1e-11)
     if not ok:
